@@ -17,14 +17,17 @@ TECHNIQUE = ('Coq proof (exact rationals Qc: ceil/extent bookkeeping, sampling-g
              'execution of the extracted model against lentil.Plane on generated planes; interpolation accuracy '
              'between nodes is a labelled numeric test, not a theorem')
 LEVEL_TEXT = ('Theorems in coq/theories/Properties/C17.v for every plane, every positive rational scale and every sample: '
-              'output shape ceil(n s), pixel scale ps/s, extent within one sample, resample = rescale(ps/new), identity '
-              'at s = 1, nodes of the sampling grid for s = k and s = 1/k, value of every pinned sample (amplitude/s, opd, '
-              'binary mask, nearest-neighbour mask, disjoint segments stay disjoint). The model is extracted and compared '
-              'with lentil on every run (shapes, pixel scale, mask, all pinned samples to 1e-9).')
+              'output shape ceil(n s), pixel scale ps/s, extent within one sample, resample = rescale(ps/new) and its two '
+              'refusals, identity at s = 1, nodes of the sampling grid for s = k and s = 1/k, value of every pinned sample '
+              '(amplitude/s, opd), the complete nearest-neighbour mask (binary, segment count kept, no segment vanishes '
+              'silently, disjoint segments stay disjoint). The model is extracted and compared with lentil.Plane on every run '
+              '(shapes, pixel scale, every mask sample, all pinned amplitude/opd samples to 1e-9, exceptions).')
 LEVEL_NOTE = ('Trusted: Coq kernel, extraction, harness; scipy.ndimage.map_coordinates is an oracle with a stated contract '
               '(interpolating at nodes; order 0 = nearest neighbour, ties up, cval outside [0, n-1]; bilinear post-mask). '
-              'Power and propagated-image preservation are numeric tests on smooth planes (thresholds 1e-3 / 1e-2, measured '
-              'margin >= 6). Known finding: planes with an integer-dtype mask (every rescaled plane) cannot be rescaled.')
+              'Conservation of sum|amplitude|^2 and of the propagated image is NOT proved: numeric tests on smooth planes '
+              '(thresholds 1e-3 / 1e-2 as named in the property, measured margin >= 6). "Original untouched" is observed by the '
+              'tie (snapshots, shares_memory), not proved. Known findings: planes with an integer/bool mask or amplitude array '
+              '(every plane returned by rescale) cannot be rescaled (ValueError); a scalar amplitude is not divided by the scale.')
 TRUSTED = ['Coq 8.16.1 kernel (coqc; coqchk in the thorough tier)',
            'extraction with ExtrOcamlBasic only; ocaml/driver.ml',
            'harness/props/c17.py: case builder, codec, comparator, oracle',
@@ -32,16 +35,20 @@ TRUSTED = ['Coq 8.16.1 kernel (coqc; coqchk in the thorough tier)',
            'inside the array (observed to 1e-15); order=0 mode=constant returns input[floor(x+1/2)] for 0<=x<=n-1 and 0 outside; '
            'order=1 mode=nearest is bilinear (sample at nodes, 0 when the 4 neighbours are 0, >= 1/4 when the nearest node is 1)',
            'copy.deepcopy (Plane.copy) is observed, not modelled: the original is compared before/after in the tie',
-           'numpy: np.ceil, np.arange, IEEE division (exact regime: scales p/2^k, products n*s exact)']
-ASSUMPTIONS = ['scale > 0; amplitude/opd real, 0-d or 2-d; mask 0-d, 2-d or 3-d',
+           'lentil.helper.boundary_slice raises IndexError on an empty mask (modelled as such, observed through the tie)',
+           'numpy: np.ceil, np.arange, IEEE division (exact regime: the float scale is the rational the model receives and '
+           'its products with both sizes are exact)']
+ASSUMPTIONS = ['scale > 0; amplitude/opd real, 0-d or 2-d; mask 0-d, 2-d or 3-d with non-empty segments',
                'exact regime of the tie: float scale is a rational whose product with both array sizes is exact in binary64; '
-               'nearest-neighbour mask samples are compared only for scales p/2^k (p < 1024, k <= 6)',
+               'mask samples away from nodes are compared only for scales p/2^k (p < 1024, k <= 6) and not at exact ties of the '
+               'nearest-neighbour rule (coordinate = k + 1/2), which the property does not pin',
                'accuracy tests: Gaussian x low-order polynomial planes with e-fold radius >= 3.5 samples of the coarser grid '
-               'and edge value <= 7e-4 (sizes >= 19/min(s,1))']
-RULE = ('corpus, then random planes: sizes 16..48 (odd/even/non-square), smooth Gaussian x polynomial amplitude and OPD, '
-        'scalar/integer variants, masks none/full/disk/segment cube (2-4)/integer/bool/scalar, scale in '
-        '{0.5,0.75,1,1.5,2,3,4} + random p/2^k + non-dyadic floats, resample targets (uniform, non-uniform, missing pixel scale); '
-        'non-trivial = array amplitude, scale != 1, no refusal')
+               'and edge value <= 7e-4 (sizes >= 19/min(s,1), up to 48), monolithic full mask, image window 0.4 of the alias-free field']
+RULE = ('corpus (26 edge cases), then a skeleton (every scale of {0.5,0.75,1,1.5,2,3,4} on even, odd and non-square planes, rescale '
+        'and resample; 1/k with k dividing / not dividing the sizes; both refusals of resample) and random planes: sizes 16..48, '
+        'smooth Gaussian x polynomial or hard-edged amplitude and OPD, scalar/integer variants, masks none/full/disk/segment cube '
+        '(2-4)/integer/bool/scalar, random p/2^k and non-dyadic float scales, uniform/non-uniform/missing pixel scale; an equal '
+        'number of tiny (2..6 sample) planes for the vm_compute cross-check; non-trivial = array amplitude, scale != 1, no refusal')
 
 TOL = 1e-9
 POWER_TOL = 1e-3       # named in the property; measured worst 1.6e-4 on the accuracy-test planes (factor 6)
@@ -408,15 +415,15 @@ def decode(c, ints):
 
 
 # ------------------------------------------------------------------ implementation side
-class Arr:
-    """numpy array carried in a result; prints as a short summary in replay files"""
+class Arr(str):
+    """numpy array carried in a result (.a); as a str it is a short summary, so results stay JSON-able and replay files small"""
 
-    def __init__(self, a):
-        self.a = np.array(a)
-
-    def __str__(self):
-        a = self.a
-        return f'ndarray shape={a.shape} dtype={a.dtype} min={a.min() if a.size else None} max={a.max() if a.size else None}'
+    def __new__(cls, a):
+        a = np.array(a)
+        obj = str.__new__(cls, f'ndarray shape={a.shape} dtype={a.dtype} min={a.min() if a.size else None} '
+                               f'max={a.max() if a.size else None}')
+        obj.a = a
+        return obj
 
 
 def mk_plane(c):
